@@ -36,6 +36,14 @@ Theorem C13_leftovers : forall ds s es, read_sectionfile ds (S (length s)) s = S
 Proof. exact sectionfile_handoff. Qed.
 Print Assumptions C13_leftovers.
 
+(* an until-section consumes the lines up to and including the first one on which its pattern is found (every remaining line
+   if none), a fixed-count section its k lines; nothing when the content is exhausted *)
+Theorem C13_until_extent : forall p s, s <> [] ->
+  sec_consume (SecUntil p) s =
+    (concat (take_until (pat_search p) (split_lines s)), concat (drop_until (pat_search p) (split_lines s))).
+Proof. intros p s Hs. cbn [sec_consume]. destruct s; [congruence|]. apply raw_block_spec. Qed.
+Print Assumptions C13_until_extent.
+
 Example C13_example :
   read_sectionfile [SecLines 2; SecUntil (re_lit (s2l "END"%string))] 40
      (s2l "a"%string ++ [NL] ++ s2l "b"%string ++ [NL] ++ s2l "c END"%string ++ [NL] ++ s2l "tail"%string)
